@@ -111,15 +111,19 @@ class Program:
             from . import roles
             mapping = roles.derive(self)
             if mapping:
-                for c in set(mapping.values()) - set(mapping):
+                # a vocabulary name that the tree still uses - necessarily for something else, since the role is played
+                # by another name - is moved out of the way first (TableConverter._unit_map when QuantityMeta's unit map
+                # was renamed, say)
+                for c in sorted(set(mapping.values()) - set(mapping)):
                     pat = re.compile(r"(?<![A-Za-z0-9_])" + re.escape(c) + r"(?![A-Za-z0-9_])")
                     if any(pat.search(m.source) for m in self.modules.values()):
-                        raise AnalysisError(f"private name {c} is used by the tree for something else than its role "
-                                            f"in the models' vocabulary ({[a for a, b in mapping.items() if b == c]})")
+                        mapping[c] = c + "__other_use"
                 self.renamed = mapping
                 self._load(only)
 
     def _load(self, only):
+        for cached in ("_symbol_dirs", "_conv_attr"):       # derived facts of an earlier load
+            self.__dict__.pop(cached, None)
         self.modules: Dict[str, Module] = {}
         self.classes: Dict[str, ClassInfo] = {}
         self.parsed_files: List[str] = []
@@ -405,6 +409,8 @@ class Program:
             return ("expr", m, m.globals[name])
         if name in m.imports:
             mod, nm = m.imports[name]
+            if nm is not None and f"{mod}.{nm}" in self.modules:
+                return ("module", f"{mod}.{nm}", None)      # `from . import submodule`
             if mod in self.modules:
                 if nm is None:
                     return ("module", mod, None)
